@@ -3,7 +3,7 @@
    andb/orb to && / ||.  N, positive, nat, Z stay the extracted inductive types. *)
 Require Extraction.
 Require Import ExtrOcamlBasic.
-From PPP Require Import Base.Bytes Std.Utf8 Std.Text Std.Num Std.Ip Model.V2 Model.Builder Model.V1 Model.Auto Spec.V2Wire Spec.TlvWalk Spec.Encoder.
+From PPP Require Import Base.Bytes Std.Utf8 Std.Text Std.Num Std.Ip Model.V2 Model.Builder Model.V1 Model.Auto Spec.V2Wire Spec.TlvWalk Spec.Encoder Spec.V1Grammar.
 Extraction Language OCaml.
 Extraction "model.ml"
   lenN
@@ -16,4 +16,5 @@ Extraction "model.ml"
   is_incomplete1 is_incomplete1s pa is_incomplete_a is_complete_a
   write_to to_bytes brun z_of_digits item_ok_b item_payload_b
   enc_payload oversize expected_output body in_force payloads wire
+  spec_v1 spec_port spec_ip4 spec_ip6
   v2_spec v2_possible spec_address_bytes spec_tlv_section walk.
